@@ -232,6 +232,8 @@ struct PushTrace {
     last_structural_err: Option<(usize, DecodeError)>,
     n_err: u32,
     ok_after_err: bool,
+    /// index of the first push that returned Ok although an earlier push failed
+    first_ok_after_err: Option<usize>,
 }
 
 fn ek(e: &DecodeError) -> &'static str {
@@ -279,6 +281,9 @@ macro_rules! push_loop {
                 Ok(()) => {
                     if $tr.n_err > 0 {
                         $tr.ok_after_err = true;
+                        if $tr.first_ok_after_err.is_none() {
+                            $tr.first_ok_after_err = Some(k);
+                        }
                     }
                 }
                 Err(e) => {
@@ -425,8 +430,8 @@ const COUNTER_NAMES: &[&str] = &[
     "obs_noncanonical_accepted_by_decode",           // 13
     "obs_noncanonical_rejected_by_decode",           // 14
     "push_sequences_with_an_error",                  // 15
-    "obs_push_returned_ok_after_an_earlier_error",   // 16
-    "obs_finalize_ok_although_a_push_failed",        // 17
+    "push_returned_ok_after_an_earlier_error",       // 16 (violation)
+    "finalize_ok_although_a_push_failed",            // 17 (violation)
     "push_sequences_that_panicked",                  // 18
     "obs_converter_panics_if_continued_after_error", // 19
     "token_splits",                                  // 20
@@ -701,6 +706,45 @@ fn agree<S: Subject>(
     }
 }
 
+/// All three `Decoder::push` docs say: "It is okay to push more data after
+/// the first error. The method will just keep returning errors." So once a
+/// push has failed, every later push must fail too, and `finalize` must not
+/// hand out octets (the property: rejected "with an error, never ... silently
+/// wrong octets").
+fn errors_kept<S: Subject>(
+    l: &mut Local,
+    tr: &PushTrace,
+    fin: &Result<Vec<u8>, DecodeError>,
+    n: usize,
+    text: &str,
+    section: &str,
+    builder: &str,
+) {
+    let Some((at, first)) = tr.first_err.as_ref() else { return };
+    if let Some(k) = tr.first_ok_after_err {
+        l.violation(
+            format!("C18|{}|Decoder::push|error-not-kept|push-Ok-after-push-Err:{}", S::NAME, ek(first)),
+            n, text, builder,
+            || format!(
+                "Decoder{}: pushing the chars of {:?} one by one: push #{} failed with {:?} but the later push #{} returned Ok(()) (docs: \"will just keep returning errors\")",
+                builder, text, at, first, k
+            ),
+            || json!({"section": section, "codec": S::NAME, "text": text, "entry": "Decoder::push"}),
+        );
+    }
+    if let Ok(v) = fin {
+        l.violation(
+            format!("C18|{}|Decoder::finalize|error-not-kept|finalize-Ok-after-push-Err:{}", S::NAME, ek(first)),
+            n, text, builder,
+            || format!(
+                "Decoder{}: pushing the chars of {:?} one by one: push #{} failed with {:?}, yet finalize() returned Ok({}) - octets for text that was rejected",
+                builder, text, at, first, hex(v)
+            ),
+            || json!({"section": section, "codec": S::NAME, "text": text, "entry": "Decoder::finalize"}),
+        );
+    }
+}
+
 /// The full decode-side check of one text.
 ///
 /// `implied_panic`: the push sequence of a proper prefix of this text is
@@ -709,7 +753,7 @@ fn agree<S: Subject>(
 /// that prefix; the sequence is then counted as panicking without being run
 /// again (unwinding is serialised process-wide and would dominate the run).
 /// Returns whether the push sequence panics (executed or implied).
-fn check_text<S: Subject>(chars: &[char], sc: &mut Scratch, splits: bool, l: &mut Local, implied_panic: bool) -> bool {
+fn check_text<S: Subject>(chars: &[char], sc: &mut Scratch, max_tokens: u8, l: &mut Local, implied_panic: bool) -> bool {
     let spec = S::spec();
     let n = chars.len();
     sc.set(chars);
@@ -807,6 +851,7 @@ fn check_text<S: Subject>(chars: &[char], sc: &mut Scratch, splits: bool, l: &mu
                 l.c[C_NOT_STICKY] += 1;
                 min_into(&mut l.not_sticky, Some((n, text.to_string())));
             }
+            errors_kept::<S>(l, &tr, &fin, n, text, "text", "");
             let got: Result<&[u8], &str> = match (&first, &fin) {
                 (None, Ok(v)) => Ok(v.as_slice()),
                 (Some(e), _) => Err(ek(e)),
@@ -904,10 +949,12 @@ fn check_text<S: Subject>(chars: &[char], sc: &mut Scratch, splits: bool, l: &mu
         }
     };
     do_split(n, n, l, &mut sc.out);
-    if splits {
+    if max_tokens >= 2 {
         for i in 1..n {
             do_split(i, n, l, &mut sc.out);
         }
+    }
+    if max_tokens >= 3 {
         for i in 1..n {
             for j in i + 1..n {
                 do_split(i, j, l, &mut sc.out);
@@ -1042,6 +1089,13 @@ fn check_shortbuf<S: Subject>(chars: &[char], sc: &mut Scratch, l: &mut Local, i
             true
         }
         Ok(fin) => {
+            if tr.ok_after_err {
+                l.c[C_OK_AFTER_ERR] += 1;
+            }
+            if tr.n_err > 0 && fin.is_ok() {
+                l.c[C_NOT_STICKY] += 1;
+            }
+            errors_kept::<S>(l, &tr, &fin, n, text, "shortbuf", "<Array<2>>");
             let first: Option<DecodeError> = match (&tr.first_err, &fin) {
                 (Some((_, e)), _) => Some(*e),
                 (None, Err(e)) => Some(*e),
@@ -1060,9 +1114,11 @@ fn check_shortbuf<S: Subject>(chars: &[char], sc: &mut Scratch, l: &mut Local, i
     }
 }
 
+const LONG_TEXT: usize = 80;
+
 /// Encode side: three encoders equal the reference encoding; then the
 /// encoding goes back through every decode entry point.
-fn check_octets<S: Subject>(data: &[u8], sc: &mut Scratch, splits: bool, l: &mut Local) {
+fn check_octets<S: Subject>(data: &[u8], sc: &mut Scratch, l: &mut Local) {
     let spec = S::spec();
     let want = spec.encode(data);
     l.c[C_OCTETS] += 1;
@@ -1075,6 +1131,11 @@ fn check_octets<S: Subject>(data: &[u8], sc: &mut Scratch, splits: bool, l: &mut
         ("encode_string", S::encode_string),
         ("encode_display", S::encode_display),
     ];
+    // `encode_string` and `encode_display` are thin wrappers of `display`:
+    // a wrong encoding they merely pass on is the same defect and is counted
+    // under the `display` class; a wrapper that differs from the RFC in its
+    // own way gets its own class.
+    let mut display_out: Option<String> = None;
     for (name, f) in fns {
         l.c[C_ENCODE] += 1;
         match guard(|| f(data)) {
@@ -1086,23 +1147,35 @@ fn check_octets<S: Subject>(data: &[u8], sc: &mut Scratch, splits: bool, l: &mut
             ),
             Ok(got) => {
                 if got != want {
+                    let same_as_display = name != "display" && display_out.as_deref() == Some(got.as_str());
+                    let class = if same_as_display { "display" } else { name };
+                    let len_rel = match got.chars().count().cmp(&want.chars().count()) {
+                        std::cmp::Ordering::Equal => "same-length",
+                        std::cmp::Ordering::Greater => "longer",
+                        std::cmp::Ordering::Less => "shorter",
+                    };
                     l.violation(
-                        format!("C18|{}|{}|encoding-differs-from-rfc4648|len-mod-group:{}", S::NAME, name, data.len() % (spec.group * spec.bits as usize / 8).max(1)),
-                        data.len(), &hexd, "",
+                        format!("C18|{}|{}|encoding-differs-from-rfc4648|lib-output:{}", S::NAME, class, len_rel),
+                        data.len(), &hexd, name,
                         || format!("{}({}) = {:?}, RFC 4648 encoding is {:?}", name, hexd, got, want),
                         || json!({"section": "octets", "codec": S::NAME, "octets": hexd}),
                     );
                     // the library must still decode what it produced
-                    l.c[C_DECODE] += 1;
-                    match guard(|| S::decode_vec(&got)) {
-                        Ok(Ok(v)) if v == data => {}
-                        other => l.violation(
-                            format!("C18|{}|{}+decode|roundtrip-broken|own-encoding-not-decoded-back", S::NAME, name),
-                            data.len(), &hexd, "",
-                            || format!("decode({}({})) = {:?}", name, hexd, other),
-                            || json!({"section": "octets", "codec": S::NAME, "octets": hexd}),
-                        ),
+                    if !same_as_display {
+                        l.c[C_DECODE] += 1;
+                        match guard(|| S::decode_vec(&got)) {
+                            Ok(Ok(v)) if v == data => {}
+                            other => l.violation(
+                                format!("C18|{}|{}+decode|roundtrip-broken|own-encoding-not-decoded-back", S::NAME, name),
+                                data.len(), &hexd, "",
+                                || format!("decode({}({})) = {:?}", name, hexd, other),
+                                || json!({"section": "octets", "codec": S::NAME, "octets": hexd}),
+                            ),
+                        }
                     }
+                }
+                if name == "display" {
+                    display_out = Some(got);
                 }
             }
         }
@@ -1118,7 +1191,11 @@ fn check_octets<S: Subject>(data: &[u8], sc: &mut Scratch, splits: bool, l: &mut
             std::process::exit(2);
         }
     }
-    check_text::<S>(&chars, sc, splits, l, false);
+    // every split into <= 3 tokens for encodings up to LONG_TEXT characters,
+    // every split into <= 2 tokens beyond (the number of 3-token splits grows
+    // quadratically; a 200-octet base16 text would have 79,401 of them)
+    let max_tokens = if chars.len() <= LONG_TEXT { 3 } else { 2 };
+    check_text::<S>(&chars, sc, max_tokens, l, false);
 }
 
 // ===================================================================
@@ -1142,6 +1219,24 @@ fn run_indexed<S: Subject>(
         for k in ci * CHUNK..((ci + 1) * CHUNK).min(total) {
             f(k, &mut sc, &mut l);
         }
+        agg.merge(l);
+        wd.leave();
+    });
+}
+
+/// Like `run_indexed` for a small number of heavy cases: one case per task.
+fn run_indexed_small<S: Subject>(
+    agg: &Agg,
+    wd: &Watchdog,
+    what: &'static str,
+    total: u64,
+    f: impl Fn(u64, &mut Scratch, &mut Local) + Sync,
+) {
+    (0..total).into_par_iter().for_each(|k| {
+        wd.enter(|| json!({"codec": S::NAME, "what": what, "case": k}));
+        let mut l = Local::new();
+        let mut sc = Scratch::new();
+        f(k, &mut sc, &mut l);
         agg.merge(l);
         wd.leave();
     });
@@ -1198,7 +1293,7 @@ fn run_lengths<S: Subject>(
 }
 
 fn run_classes<S: Subject>(agg: &Agg, wd: &Watchdog, classes: &[char], max_len: usize) -> u64 {
-    run_lengths::<S>(agg, wd, "class-strings", classes, max_len, |chars, sc, l, implied| check_text::<S>(chars, sc, true, l, implied))
+    run_lengths::<S>(agg, wd, "class-strings", classes, max_len, |chars, sc, l, implied| check_text::<S>(chars, sc, 3, l, implied))
 }
 
 fn run_shortbuf<S: Subject>(agg: &Agg, wd: &Watchdog, classes: &[char], max_len: usize) -> u64 {
@@ -1240,7 +1335,7 @@ fn run_alphabet_sweep<S: Subject>(agg: &Agg, wd: &Watchdog) -> u64 {
                 chars.push('=');
             }
         }
-        check_text::<S>(&chars, sc, false, l, false);
+        check_text::<S>(&chars, sc, 1, l, false);
     });
     let g = spec.group as u64;
     let pos = m * g;
@@ -1248,19 +1343,31 @@ fn run_alphabet_sweep<S: Subject>(agg: &Agg, wd: &Watchdog) -> u64 {
         let (ci, p) = ((k / g) as usize, (k % g) as usize);
         let mut chars = vec![fill_char::<S>(); spec.group];
         chars[p] = x[ci];
-        check_text::<S>(&chars, sc, false, l, false);
+        check_text::<S>(&chars, sc, 1, l, false);
     });
     pairs + pos
 }
 
 const OCT_ALPHA: [u8; 5] = [0x00, 0x01, 0x7F, 0x80, 0xFF];
 
+/// Patterns 0..3 are used for every length; 3..8 additionally at the lengths
+/// around multiples of 64 (where an encoder working in blocks would switch).
+const N_PATTERNS_ALL: u64 = 3;
+const N_PATTERNS_BOUNDARY: u64 = 8;
+const ENC_MAX_LEN: u64 = 200;
+const BOUNDARY_LENS: [usize; 12] = [63, 64, 65, 127, 128, 129, 191, 192, 193, 255, 256, 257];
+
 fn fill_pattern(p: usize, len: usize) -> Vec<u8> {
     (0..len)
         .map(|i| match p {
             0 => 0x00,
             1 => 0xFF,
-            _ => (i as u8).wrapping_mul(37).wrapping_add(0x5B),
+            2 => (i as u8).wrapping_mul(37).wrapping_add(0x5B),
+            3 => 0x80,
+            4 => 0x7F,
+            5 => if i % 2 == 0 { 0x00 } else { 0xFF },
+            6 => 0xFFu8.wrapping_sub(i as u8),
+            _ => ((i * i) as u8).wrapping_add(7) ^ ((i >> 3) as u8),
         })
         .collect()
 }
@@ -1274,7 +1381,7 @@ fn run_encode<S: Subject>(agg: &Agg, wd: &Watchdog, alpha_len: usize, full_len: 
         run_indexed::<S>(agg, wd, "octets-5-values", cnt, |k, sc, l| {
             let mut d = Vec::with_capacity(n);
             nth_string(&OCT_ALPHA, n, k, &mut d);
-            check_octets::<S>(&d, sc, true, l);
+            check_octets::<S>(&d, sc, l);
         });
     }
     // ALL octet strings of length 1..=full_len
@@ -1284,15 +1391,22 @@ fn run_encode<S: Subject>(agg: &Agg, wd: &Watchdog, alpha_len: usize, full_len: 
         run_indexed::<S>(agg, wd, "octets-all-values", cnt, |k, sc, l| {
             let d: Vec<u8> = (0..n).map(|i| (k >> (8 * (n - 1 - i))) as u8).collect();
             l.track_distinct = n <= 2;
-            check_octets::<S>(&d, sc, true, l);
+            check_octets::<S>(&d, sc, l);
         });
     }
-    // lengths 6..=40, three fill patterns
-    let cnt = 35 * 3;
+    // every length 0..=200, three fill patterns
+    let cnt = (ENC_MAX_LEN + 1) * N_PATTERNS_ALL;
     total += cnt;
-    run_indexed::<S>(agg, wd, "octets-fill-patterns", cnt, |k, sc, l| {
-        let d = fill_pattern((k % 3) as usize, 6 + (k / 3) as usize);
-        check_octets::<S>(&d, sc, true, l);
+    run_indexed_small::<S>(agg, wd, "octets-fill-patterns", cnt, |k, sc, l| {
+        let d = fill_pattern((k % N_PATTERNS_ALL) as usize, (k / N_PATTERNS_ALL) as usize);
+        check_octets::<S>(&d, sc, l);
+    });
+    // lengths around multiples of 64, eight fill patterns
+    let cnt = BOUNDARY_LENS.len() as u64 * N_PATTERNS_BOUNDARY;
+    total += cnt;
+    run_indexed_small::<S>(agg, wd, "octets-block-boundaries", cnt, |k, sc, l| {
+        let d = fill_pattern((k % N_PATTERNS_BOUNDARY) as usize, BOUNDARY_LENS[(k / N_PATTERNS_BOUNDARY) as usize]);
+        check_octets::<S>(&d, sc, l);
     });
     total
 }
@@ -1332,7 +1446,7 @@ fn replay_case<S: Subject>(case: &Value, l: &mut Local) {
         "octets" => {
             let d = unhex(case["octets"].as_str().unwrap_or(""));
             println!("octets {} -> display {:?}, reference {:?}", hex(&d), guard(|| S::display(&d)), S::spec().encode(&d));
-            check_octets::<S>(&d, &mut sc, true, l);
+            check_octets::<S>(&d, &mut sc, l);
         }
         "shortbuf" => {
             let text = case["text"].as_str().unwrap_or("");
@@ -1345,7 +1459,7 @@ fn replay_case<S: Subject>(case: &Value, l: &mut Local) {
             let text = case["text"].as_str().unwrap_or("");
             let chars: Vec<char> = text.chars().collect();
             println!("{}", serde_json::to_string_pretty(&describe_text::<S>(text)).unwrap());
-            check_text::<S>(&chars, &mut sc, true, l, false);
+            check_text::<S>(&chars, &mut sc, 3, l, false);
         }
     }
 }
@@ -1477,7 +1591,7 @@ fn main() {
     let e64 = run_encode::<S64>(&a64, &wd, enc_alpha_len, enc_full_len);
     let e32 = run_encode::<S32>(&a32, &wd, enc_alpha_len, enc_full_len);
     let e16 = run_encode::<S16>(&a16, &wd, enc_alpha_len, enc_full_len);
-    space.insert("encode".into(), json!({"five_value_alphabet_max_len": enc_alpha_len, "all_octet_strings_max_len": enc_full_len, "fill_pattern_lengths": "6..=40 x 3", "per_codec_octet_strings": [e64, e32, e16]}));
+    space.insert("encode".into(), json!({"five_value_alphabet_max_len": enc_alpha_len, "all_octet_strings_max_len": enc_full_len, "fill_pattern_lengths": "every length 0..=200 x 3 patterns", "block_boundary_lengths": BOUNDARY_LENS, "block_boundary_patterns": N_PATTERNS_BOUNDARY, "token_splits_of_encodings": "all <=3-token splits up to 80 characters, all <=2-token splits beyond", "per_codec_octet_strings": [e64, e32, e16]}));
 
     let s64 = run_shortbuf::<S64>(&a64, &wd, &sb64, sblen);
     let s32 = run_shortbuf::<S32>(&a32, &wd, &sb32, sblen);
@@ -1521,7 +1635,7 @@ fn main() {
             "non-zero trailing bits may be accepted or rejected (RFC 4648 s.3.5); the observed behaviour is recorded under obs_noncanonical_*",
             "the standard (non-hex) base32 alphabet named in the property is not implemented by src/utils/base32.rs, so nothing is run for it",
             "Decoder::push is continued after errors because its documentation says this is okay; a SymbolConverter is NOT continued after an error for the verdict (a scanner stops at the first error); what happens if it is continued is recorded as an observation only",
-            "that finalize returns Ok after a failed push (error not sticky) is recorded as an observation, not a violation: the sequence did return an error",
+            "all three Decoder::push docs promise that errors are kept after the first failed push: a later push returning Ok, or finalize returning Ok, after a failed push is a violation (error-not-kept)",
             "character classes stand for their class; the alphabet sweep covers every character U+0000..U+017F (+11 look-alikes) in the first two positions and at every position of one full group",
             "bounded-buffer (Array<2>) runs are an extension beyond the property's input quantifier; they share the root cause of the known push panic",
         ],
